@@ -334,9 +334,23 @@ def r11_7(ctx: Ctx, rule: str = "R11.7") -> None:
     folder_level = any(isinstance(x, ast.Raise) and x.exc is not None and "CrcError" in norm(x.exc) for x in walk(wd.node))
     if folder_level:
         m = 0
+        def wopen(e: ast.AST) -> bool:
+            return isinstance(e, ast.Call) and attr_tail(e) == "open" and any(k.arg == "mode" and isinstance(k.value, ast.Constant) and "w" in str(k.value.value) for k in e.keywords)
+        opened = {n.targets[0].id: n for n in walk(es.node) if isinstance(n, ast.Assign) and isinstance(n.targets[0], ast.Name) and wopen(n.value)}
         for w in [w for w in walk(es.node) if isinstance(w, ast.With)]:
-            sinks = [it.optional_vars.id for it in w.items if isinstance(it.context_expr, ast.Call) and attr_tail(it.context_expr) == "open" and isinstance(it.optional_vars, ast.Name)
-                     and any(k.arg == "mode" and isinstance(k.value, ast.Constant) and "w" in str(k.value.value) for k in it.context_expr.keywords)]
+            sinks = [it.optional_vars.id for it in w.items if wopen(it.context_expr) and isinstance(it.optional_vars, ast.Name)]
+            sinks += [it.context_expr.id for it in w.items if isinstance(it.context_expr, ast.Name) and it.context_expr.id in opened]
+            # opening the output is not part of what the clean-up undoes: an open() that FAILS (busy executable, read-only file) has touched nothing, and the
+            # handler must not delete the file that is there
+            for it in w.items:
+                oc = it.context_expr if wopen(it.context_expr) else (opened[it.context_expr.id].value if isinstance(it.context_expr, ast.Name) and it.context_expr.id in opened else None)
+                if oc is None:
+                    continue
+                inside = any(isinstance(t, ast.Try) and any(oc is x for st in t.body for x in ast.walk(st)) and any(
+                    any(isinstance(x, ast.Call) and attr_tail(x) in ("unlink", "remove") for x in ast.walk(h)) for h in t.handlers) for t in walk(es.node))
+                ctx.check(not inside, rule, es, oc, "a failing open() of the output does not delete the file that is there",
+                          f"`{norm(oc)}` stands inside the try whose handler unlinks the member's file: when the open itself fails (ETXTBSY for a running program, EACCES for a "
+                          "read-only file of another user) the user's existing file is deleted although nothing was written to it", construct="open inside the clean-up try")
             for c in [c for st in w.body for c in ast.walk(st) if isinstance(c, ast.Call) and attr_tail(c) == "decompress" and len(c.args) > 2 and isinstance(c.args[2], ast.Name) and c.args[2].id in sinks]:
                 m += 1
                 ctx.check(_crc_handler_unlinks(es, c, broad=True), rule, es, c, "ANY failure while a member is decoded into its file removes that file",
